@@ -9,9 +9,18 @@
     every history of ordered changes ([server_survives]; F5 fixed; the pinned conversion is
     refuted by a witness). Since every answer and every diagnostic is computed by a refresh
     from the store (and, for files not open, from disk), equality of stores is the core of
-    history independence; the refresh itself, the diagnostics bookkeeping (F7) and liveness
-    on failing requests (F6) are carried by the monitors on the real binary. *)
+    history independence. The diagnostics bookkeeping is modelled (Model/Diag.v: what
+    Workspace::diagnostics publishes given the documents of the store, the locators whose last
+    diagnostics were not empty and the errors of the compilation; tied to the real Workspace on
+    every run): after every refresh the client shows, for every locator, exactly the errors of
+    the compilation just made, whatever came before ([C15_diagnostics_track_current_errors]),
+    hence the same as the client of a fresh server after one refresh on the same store and errors
+    ([C15_diagnostics_history_independent]); the pinned bookkeeping (before F7) is refuted by a
+    witness. That the errors of a compilation depend only on the store and the disk is the
+    determinism of the compiler (C06); liveness on failing requests (F6) and the timing of
+    refreshes are carried by the monitors on the real binary. *)
 From Oal Require Import Text Position PositionProofs Lsp LspProofs.
+From Oal Require Diag DiagProofs.
 
 Theorem C15_docs_track_client : forall h s,
   wf_history s h -> run s (map ev_to_server h) = Some (client_run s h).
@@ -55,3 +64,33 @@ Example C15_wf_history_inhabited :
 Proof.
   cbn. repeat split; reflexivity.
 Qed.
+
+(** diagnostics bookkeeping: nothing stale survives a refresh *)
+Theorem C15_refresh_exact : forall st docs errs, DiagProofs.inv st ->
+  (forall l, Diag.vget (Diag.s_view (Diag.refresh st docs errs)) l = Diag.errs_of l errs) /\ DiagProofs.inv (Diag.refresh st docs errs).
+Proof. exact DiagProofs.refresh_exact. Qed.
+Print Assumptions C15_refresh_exact.
+
+Theorem C15_diagnostics_track_current_errors : forall h docs errs l,
+  Diag.vget (Diag.s_view (DiagProofs.run DiagProofs.fresh (h ++ [(docs, errs)]))) l = Diag.errs_of l errs.
+Proof. exact DiagProofs.diagnostics_track_current_errors. Qed.
+Print Assumptions C15_diagnostics_track_current_errors.
+
+Theorem C15_diagnostics_history_independent : forall h docs errs l,
+  Diag.vget (Diag.s_view (DiagProofs.run DiagProofs.fresh (h ++ [(docs, errs)]))) l =
+  Diag.vget (Diag.s_view (DiagProofs.run DiagProofs.fresh [(docs, errs)])) l.
+Proof. exact DiagProofs.diagnostics_history_independent. Qed.
+Print Assumptions C15_diagnostics_history_independent.
+
+Theorem C15_stale_diagnostics_pinned_refuted :
+  exists docs1 errs1 docs2 errs2 l,
+    Diag.vget (Diag.apply_batch (Diag.apply_batch [] (Diag.diagnostics_pinned docs1 errs1)) (Diag.diagnostics_pinned docs2 errs2)) l <> Diag.errs_of l errs2.
+Proof. exact DiagProofs.pinned_keeps_stale_diagnostics. Qed.
+Print Assumptions C15_stale_diagnostics_pinned_refuted.
+
+Example C15_refresh_clears :
+  let st1 := Diag.refresh DiagProofs.fresh [1%N; 2%N] [(2%N, 7%N); (3%N, 8%N)] in
+  let st2 := Diag.refresh st1 [1%N] [] in
+  (Diag.vget (Diag.s_view st1) 2%N, Diag.vget (Diag.s_view st1) 3%N, Diag.s_reported st1) = ([7%N], [8%N], [2%N; 3%N]) /\
+  (Diag.vget (Diag.s_view st2) 2%N, Diag.vget (Diag.s_view st2) 3%N, Diag.s_reported st2) = ([], [], []).
+Proof. exact DiagProofs.ex_refresh_clears. Qed.
